@@ -166,7 +166,11 @@ SolveFails(s, r, truth, exact) ==
                                     ST_NO_PROBLEM, ST_REGULAR, ST_UNKNOWN, ST_ERROR})
    \cup Fail("OptimalHasSol", r.status = ST_OPTIMAL => r.hasSol)
    \cup cert
-   \cup (IF r.hasFarkas THEN { "Farkas:" \o n : n \in FarkasFails(lp, r.farkas, ft) } ELSE {})
+   \cup (IF r.hasFarkas THEN { "Farkas:" \o n : n \in FarkasFails(lp, r.farkas, ft) }
+                               \cup (IF FarkasFails(lp, r.farkas, ft) # {} /\ Len(r.farkas) = NR(lp)
+                                        /\ FarkasFails(lp, [i \in 1..NR(lp) |-> BRNeg(r.farkas[i])], ft) = {}
+                                     THEN {"Farkas:NegatedIsProof"} ELSE {})
+         ELSE {})
    \cup (IF r.hasRay THEN { "Ray:" \o n : n \in RayFails(lp, r.ray, ft) } ELSE {})
    \cup Fail("EnsureRayFarkas", s.ensureray /\ r.status = ST_INFEASIBLE => r.hasFarkas)
    \cup Fail("EnsureRayRay", s.ensureray /\ r.status = ST_UNBOUNDED => r.hasRay)
